@@ -58,16 +58,16 @@ func TestBoundedC05Stop(t *testing.T) {
 	moduleStopTimeout = 6 * time.Second
 	defer func() { moduleStopTimeout = wasTimeout }()
 
-	kinds := []string{"worker", "service worker", "task", "microtask", "event hook"}
+	kinds := []string{"worker", "service worker", "task", "microtask", "event hook", "signalled microtask"}
 	var subsets []int
-	for s := 0; s < 32; s++ {
+	for s := 0; s < 64; s++ {
 		ones := 0
-		for b := 0; b < 5; b++ {
+		for b := 0; b < 6; b++ {
 			if s&(1<<b) != 0 {
 				ones++
 			}
 		}
-		if thorough || ones <= 1 || ones == 5 || s == 0b00101 || s == 0b11010 {
+		if (thorough && (s < 32 || s%3 == 0)) || ones <= 1 || ones == 6 || s == 0b000101 || s == 0b111010 {
 			subsets = append(subsets, s)
 		}
 	}
@@ -144,6 +144,15 @@ func TestBoundedC05Stop(t *testing.T) {
 						mod.NewTask("t", func(ctx context.Context, _ *Task) error { return fn(ctx) }).StartASAP()
 					case "microtask":
 						mod.StartHighPriorityMicroTask("mt", work(k))
+					case "signalled microtask":
+						// the caller runs the work itself between the signal and its done function
+						done := mod.SignalHighPriorityMicroTask()
+						fn := work(k)
+						ctx := mod.Ctx
+						go func() {
+							_ = fn(ctx)
+							done()
+						}()
 					}
 				}
 				return nil
@@ -287,7 +296,7 @@ func TestBoundedC05Stop(t *testing.T) {
 			}
 		}
 	}
-	fmt.Printf("BOUNDED name=C05/stop cases=%d distinct=%d bound=a module depending on a base module and running a subset of {worker (and one started while preparing), service worker, task, microtask, hook on an event of the base module} (quick: none, each alone, two mixed subsets, all; thorough: all 32 subsets) x each piece returning 0 / 40ms after cancellation x the stop routine returning after / before the work; Shutdown from the test goroutine; then 4 tasks, an event, a worker and a microtask on the stopped module\n", cases, cases)
+	fmt.Printf("BOUNDED name=C05/stop cases=%d distinct=%d bound=a module depending on a base module and running a subset of {worker (and one started while preparing), service worker, task, microtask, hook on an event of the base module, signalled microtask} (quick: none, each alone, two mixed subsets, all; thorough: 45 of the 64 subsets) x each piece returning 0 / 40ms after cancellation x the stop routine returning after / before the work; Shutdown from the test goroutine; then 4 tasks, an event, a worker and a microtask on the stopped module\n", cases, cases)
 	if fails > 0 {
 		t.Fatalf("%d checks of %d cases fail", fails, cases)
 	}
